@@ -21,7 +21,17 @@ one of the server's keys, they are the keys the model uses, and no two parameter
 side only (e.g. the client stripping `r#`) therefore changes the generated constant and the theorem no longer compiles; an
 expression outside the understood fragment is an error string.  heck's snake_case / lowerCamelCase are ported below
 (`snake`, `camel`; the same port serves the Python reference of tools/props/c17.py); what the real heck does with
-`r#type`, `_x`, `x_`, `x1y` is judged by the differential run over the compiled family."""
+`r#type`, `_x`, `x_`, `x1y` is judged by the differential run over the compiled family.
+
+Optional parameters.  Whether the generated server reads a positional parameter with `seq.optional_next()` (absent -> None) is
+decided by the macro from the SPELLING of the type (proc-macros/src/helpers.rs `is_option`, called only from
+render_server.rs render_params_decoding).  That rule is read from the source on every run (`option_rule()`: last-segment test /
+whitelist of full paths / ends_with over the path segments; anything else is an error naming the construct) and applied to the
+path each parameter type is spelled with (`Option`, `std::option::Option`, `core::option::Option`, `::core::option::Option`,
+`option::Option`, ..).  The decision is the `p_opt` of the emitted descriptions (so the model's positional decoder runs on it)
+and is listed next to the spelling in `family_options`; Props/C17.v (C17_option_spellings_are_optional) needs every standard
+spelling of Option to be decided optional, so a rule that forgets one stops the build.  `family()` keeps for the Python
+generator / oracle the DECLARED optionality ("opt": the type is std's Option under a known spelling), independent of that rule."""
 import os, re
 import vlib
 
@@ -94,6 +104,10 @@ class P:
                     self.next()
             self.eat("p", ")")
             return ("unit",) if not ts else ("tuple", ts)
+        lead = False
+        if self.at("p", "::"):
+            self.next()
+            lead = True
         path = [self.eat("id")]
         while self.at("p", "::"):
             self.next()
@@ -116,6 +130,8 @@ class P:
         if leaf == "Value" and not args:
             return ("any",)
         if leaf == "Option" and len(args) == 1:
+            if option_spelling(lead, path) is None:
+                raise ParseError("type %s%s<..>: not a spelling of std's Option this translator knows" % ("::" if lead else "", "::".join(path)))
             return ("opt", args[0])
         if leaf == "Vec" and len(args) == 1:
             return ("vec", args[0])
@@ -126,6 +142,23 @@ class P:
         if not args and len(path) == 1:
             return ("named", leaf)
         raise ParseError("type %s<%s> not supported" % ("::".join(path), args))
+
+    def spelled_ty(self):
+        """-> (type, (leading `::`, path segments) of the type's outermost path | None for a tuple / unit): the spelling is
+        re-read from the tokens the type starts with"""
+        j = self.i
+        t = self.ty()
+        lead, path = False, []
+        if self.t[j] == ("p", "("):
+            return t, None
+        if self.t[j] == ("p", "::"):
+            lead, j = True, j + 1
+        while self.t[j][0] == "id":
+            path.append(self.t[j][1])
+            if j + 1 >= len(self.t) or self.t[j + 1] != ("p", "::"):
+                break
+            j += 2
+        return t, (lead, tuple(path))
 
     # ---- attributes:  #[name(key [= value], ...)]  ->  (name, {key: value})
     def attr(self):
@@ -196,10 +229,13 @@ def parse_params(p):
         if rename is not None and not isinstance(rename, str):
             raise ParseError("argument(rename = ..) of %s is not a string literal" % ident)
         p.eat("p", ":")
-        t = p.ty()
-        # helpers::is_option is syntactic: the last path segment is `Option`
+        t, path = p.spelled_ty()
+        # "opt": the DECLARED type is std's Option (one of the spellings of OPTION_SPELLINGS): what the property speaks about and
+        # what the generator / direct oracle of tools/props/c17.py use.  Whether the MACRO treats the parameter as optional
+        # (seq.optional_next()) is a different question, decided from "path" with the rule read from helpers::is_option
+        # (option_rule / macro_optional below) when the Coq description is written.
         opt = t[0] == "opt"
-        params.append({"ident": ident, "rename": rename, "opt": opt, "ty": t[1] if opt else t})
+        params.append({"ident": ident, "rename": rename, "opt": opt, "ty": t[1] if opt else t, "path": path})
     p.eat("p", ")")
     assert self_seen
     return params
@@ -755,6 +791,221 @@ def param_keys(q, rules=None):
     return apply_ops(r["client"], name), [apply_ops(o, name) for o in r["server"]]
 
 
+# ---------------------------------------------------------------- the macro's optionality rule, read from /repo/proc-macros
+
+# the spellings of std's Option in the family (`option::Option` with `use std::option;` in scope): (leading `::`, segments) -> class
+OPTION_SPELLINGS = {
+    (False, ("Option",)): "prelude",
+    (False, ("option", "Option")): "module",
+    (False, ("std", "option", "Option")): "std",
+    (False, ("core", "option", "Option")): "core",
+    (True, ("std", "option", "Option")): "global-std",
+    (True, ("core", "option", "Option")): "global-core",
+}
+
+
+def option_spelling(lead, path):
+    return OPTION_SPELLINGS.get((bool(lead), tuple(path)))
+
+
+def path_text(path):
+    return "(not a path)" if path is None else ("::" if path[0] else "") + "::".join(path[1])
+
+
+def _flat(body):
+    return re.sub(r"\s+", "", re.sub(r"//[^\n]*", "", body))
+
+
+def _str_list(flat, where):
+    """`"a","b"` -> ['a', 'b']"""
+    if flat == "":
+        return []
+    items = flat.rstrip(",").split(",")
+    out = []
+    for it in items:
+        m = re.fullmatch(r'"([A-Za-z_][A-Za-z0-9_]*)"', it)
+        if not m:
+            raise ParseError("%s: path segment literal %r not understood" % (where, it))
+        out.append(m.group(1))
+    return out
+
+
+_ORULE = {}
+W = r"(\w+)"
+
+
+def option_rule():
+    """helpers::is_option, the function render_server.rs asks whether a positional parameter is read with
+    `seq.optional_next()` (absent -> None) or `seq.next()`: -> dict(kind=.., ..) for the shapes understood,
+         kind = "last"    name           the last path segment is `name` (the tree's rule: any path ending in `Option`)
+         kind = "paths"   paths          the segment list is one of `paths` (a whitelist of full paths)
+         kind = "suffix"  paths          the segment list ends with one of `paths`
+       plus qself (a `<T as Tr>::..` path is refused first).  In every shape a type that is not a `syn::Type::Path` is not
+       optional, generic arguments are not looked at and a leading `::` is not a segment.  Anything else: ParseError naming the
+       construct.  Also checked: is_option is what chooses optional_next / next in render_params_decoding, and nothing else in
+       proc-macros/src calls it."""
+    src = _repo("proc-macros/src/helpers.rs")
+    srv = _repo("proc-macros/src/render_server.rs")
+    pm = os.path.join(vlib.REPO, "proc-macros", "src")
+    others = []
+    for root, _, files in os.walk(pm):
+        for fn in sorted(files):
+            if fn.endswith(".rs"):
+                rel = os.path.relpath(os.path.join(root, fn), pm)
+                n = len(re.findall(r"\bis_option\s*\(", open(os.path.join(root, fn)).read()))
+                if n and rel != "helpers.rs":
+                    others.append((rel, n))
+    key = hash((src, srv, tuple(others)))
+    if key in _ORULE:
+        return _ORULE[key]
+    where = "helpers.rs is_option"
+    if others != [("render_server.rs", 1)]:
+        raise ParseError("%s: expected exactly one caller (render_server.rs render_params_decoding), found %r" % (where, others))
+    if not re.search(r"let is_option = is_option\(ty\);\s*let next_method = if is_option \{ quote!\(optional_next\) \} else \{ quote!\(next\) \};", srv):
+        raise ParseError("render_server.rs: `let is_option = is_option(ty); let next_method = if is_option { quote!(optional_next) } else { quote!(next) };` not found")
+    body = _closure_body(src, r"fn is_option\(\s*ty\s*:\s*&\s*syn::Type\s*\)\s*->\s*bool\s*\{", where)
+    f = _flat(body)
+    # --- constants: const NAME: [&[&str]; N] = [&["a", "b"], ..];
+    consts = {}
+    for m in list(re.finditer(r"const(\w+):\[&\[&str\];(\d+)\]=\[(.*?)\];", f)):
+        rows = re.findall(r"&\[([^\[\]]*)\]", m.group(3))
+        if re.sub(r"&\[[^\[\]]*\],?", "", m.group(3)) != "" or len(rows) != int(m.group(2)):
+            raise ParseError("%s: constant %s = [%s] not understood" % (where, m.group(1), m.group(3)))
+        consts[m.group(1)] = [_str_list(r, where) for r in rows]
+        f = f.replace(m.group(0), "", 1)
+    if re.search(r"\b(const|static)\b", re.sub(r"\s+", " ", re.sub(r"//[^\n]*", "", body))) and not consts:
+        raise ParseError("%s: a constant of a shape that is not `const N: [&[&str]; n] = [&[..], ..];`" % where)
+    # --- the guard: only a Type::Path can be optional
+    tp = r"(?:syn::)?Type::Path\(" + W + r"\)"
+    m = re.fullmatch(r"iflet" + tp + r"=ty\{(.*)\}false", f)
+    form = "block"
+    if not m:
+        m = re.fullmatch(r"let" + tp + r"=tyelse\{returnfalse;?\};(.*)", f)
+        form = "tail"
+    if not m:
+        m = re.fullmatch(r"matchty\{" + tp + r"=>(.*),_=>false,?\}", f)
+        form = "expr"
+    if not m:
+        m = re.fullmatch(r"matches!\(ty," + tp + r"if(.*)\)", f)
+        form = "expr"
+    if not m:
+        raise ParseError("%s: the body does not start by matching `syn::Type::Path(..) = ty` (if let / let-else / match / matches!) with `false` otherwise: %r" % (where, f[:160]))
+    v, core = m.group(1), m.group(2)
+    if "leading_colon" in core:
+        raise ParseError("%s: a test of `leading_colon` is not understood" % where)
+    qself = False
+    g = "if%s.qself.is_some(){returnfalse;}" % v
+    if core.startswith(g):
+        qself, core = True, core[len(g):]
+    if "qself" in core:
+        raise ParseError("%s: use of `qself` other than `if %s.qself.is_some() { return false; }` first" % (where, v))
+    S = re.escape(v + ".path.segments")
+    # --- let SEGS: Vec<String> = path.path.segments.iter().map(|seg| seg.ident.to_string()).collect();
+    segs = None
+    m = re.search(r"let" + W + r"(?::Vec<(?:String|_)>)?=" + S + r"\.iter\(\)\.map\(\|" + W + r"\|\2\.ident\.to_string\(\)\)\.collect(?:::<Vec<(?:String|_)>>)?\(\);", core)
+    if m and m.start() == 0:
+        segs, core = re.escape(m.group(1)), core[m.end():]
+    id_is = lambda var: r"\|" + W + r"\|\%d\.ident==\"(\w+)\"" % var
+
+    def expr(e):
+        for pat in (S + r"\.last\(\)\.map_or\(false,\|" + W + r"\|\1\.ident==\"(\w+)\"\)",
+                    S + r"\.last\(\)\.is_some_and\(\|" + W + r"\|\1\.ident==\"(\w+)\"\)",
+                    S + r"\.last\(\)\.map\(\|" + W + r"\|\1\.ident==\"(\w+)\"\)\.unwrap_or\(false\)",
+                    S + r"\.iter\(\)\.last\(\)\.map_or\(false,\|" + W + r"\|\1\.ident==\"(\w+)\"\)",
+                    r"matches!\(" + S + r"\.last\(\),Some\(" + W + r"\)if\1\.ident==\"(\w+)\"\)"):
+            m = re.fullmatch(pat, e)
+            if m:
+                return {"kind": "last", "name": m.group(2)}
+        if segs is not None:
+            for pat in (segs + r"\.last\(\)\.map_or\(false,\|" + W + r"\|\*?\1==\"(\w+)\"\)",
+                        segs + r"\.last\(\)\.is_some_and\(\|" + W + r"\|\*?\1==\"(\w+)\"\)",
+                        segs + r"\.last\(\)\.map\(\|" + W + r"\|\*?\1==\"(\w+)\"\)\.unwrap_or\(false\)"):
+                m = re.fullmatch(pat, e)
+                if m:
+                    return {"kind": "last", "name": m.group(2)}
+            for pat in (W + r"\.iter\(\)\.any\(\|" + W + r"\|\2\.iter\(\)\.eq\(" + segs + r"\.iter\(\)\)\)",
+                        W + r"\.iter\(\)\.any\(\|" + W + r"\|" + segs + r"\.iter\(\)\.eq\(\2\.iter\(\)\)\)",
+                        W + r"\.iter\(\)\.any\(\|" + W + r"\|" + segs + r"==\*?\2\)"):
+                m = re.fullmatch(pat, e)
+                if m:
+                    if m.group(1) not in consts:
+                        raise ParseError("%s: %s is not a constant list of paths" % (where, m.group(1)))
+                    return {"kind": "paths", "paths": consts[m.group(1)]}
+            m = re.fullmatch(W + r"\.iter\(\)\.any\(\|" + W + r"\|" + segs + r"\.ends_with\(\*?\2\)\)", e)
+            if m:
+                if m.group(1) not in consts:
+                    raise ParseError("%s: %s is not a constant list of paths" % (where, m.group(1)))
+                return {"kind": "suffix", "paths": consts[m.group(1)]}
+            m = re.fullmatch(segs + r"\.ends_with\(&\[([^\[\]]*)\]\)", e)
+            if m:
+                return {"kind": "suffix", "paths": [_str_list(m.group(1), where)]}
+            m = re.fullmatch(segs + r"==\[([^\[\]]*)\]", e)
+            if m:
+                return {"kind": "paths", "paths": [_str_list(m.group(1), where)]}
+        raise ParseError("%s: test %r not understood (understood: last segment `.ident == \"..\"`, a constant whitelist compared with "
+                         "`.iter().eq(..)` / `==`, `.ends_with(..)`)" % (where, e[:200]))
+
+    def stmts(c):
+        # the peekable loop of the tree: the last segment's ident
+        m = re.fullmatch(r"letmut" + W + "=" + S + r"\.iter\(\)\.peekable\(\);whileletSome\(" + W + r"\)=\1\.next\(\)\{if(.*?)\{returntrue;\}\}", c)
+        if m:
+            it, seg, cond = m.group(1), m.group(2), m.group(3)
+            a = re.fullmatch(re.escape(seg) + r"\.ident==\"(\w+)\"&&" + re.escape(it) + r"\.peek\(\)\.is_none\(\)", cond) or \
+                re.fullmatch(re.escape(it) + r"\.peek\(\)\.is_none\(\)&&" + re.escape(seg) + r"\.ident==\"(\w+)\"", cond)
+            if not a:
+                raise ParseError("%s: loop condition %r not understood (expected `seg.ident == \"..\" && it.peek().is_none()`)" % (where, cond))
+            return {"kind": "last", "name": a.group(1)}
+        m = re.fullmatch(r"ifletSome\(" + W + r"\)=" + S + r"\.last\(\)\{(?:return\1\.ident==\"(\w+)\";|if\1\.ident==\"(\w+)\"\{returntrue;\})\}", c)
+        if m:
+            return {"kind": "last", "name": m.group(2) or m.group(3)}
+        m = re.fullmatch(r"return(.*);", c) or re.fullmatch(r"if(.*)\{returntrue;\}", c)
+        if m:
+            return expr(m.group(1))
+        raise ParseError("%s: statements %r not understood" % (where, c[:200]))
+
+    if form == "block":
+        rule = stmts(core)
+    elif form == "tail" and core.endswith("false") and not core.endswith("==false"):
+        rule = stmts(core[:-len("false")])
+    else:
+        m = re.fullmatch(r"return(.*);", core)
+        rule = expr(m.group(1) if m else core)
+    rule["qself"] = qself
+    _ORULE[key] = rule
+    return rule
+
+
+def rule_text(rule):
+    k = rule["kind"]
+    if k == "last":
+        t = "a path whose last segment is `%s`" % rule["name"]
+    elif k == "paths":
+        t = "a path that is one of " + ", ".join("`" + "::".join(x) + "`" for x in rule["paths"])
+    else:
+        t = "a path that ends with one of " + ", ".join("`" + "::".join(x) + "`" for x in rule["paths"])
+    return t + " (segments only: generic arguments and a leading `::` are not looked at" + ("; `<T as Tr>::..` paths refused" if rule.get("qself") else "") + ")"
+
+
+def rule_applies(rule, path):
+    """the rule on a type spelled with outermost path `path` = (leading `::`, segments), None for a tuple / unit"""
+    if path is None:
+        return False
+    segs = list(path[1])
+    k = rule["kind"]
+    if k == "last":
+        return segs[-1] == rule["name"]
+    if k == "paths":
+        return segs in [list(x) for x in rule["paths"]]
+    if k == "suffix":
+        return any(x and len(segs) >= len(x) and segs[-len(x):] == list(x) for x in rule["paths"])
+    raise ParseError("rule %r" % (rule,))
+
+
+def macro_optional(q, rule=None):
+    """does the generated server read parameter q with seq.optional_next()?"""
+    return rule_applies(rule or option_rule(), q["path"])
+
+
 # ---------------------------------------------------------------- Coq output
 
 def cstr(s):
@@ -800,9 +1051,14 @@ def cty(t):
     raise ParseError("type %r" % (t,))
 
 
-def cparam(q, rules):
+def cparam(q, rules, orule):
     # p_ident: the text RpcFnArg::name takes from the identifier (syn::Ident::to_string(): raw identifiers keep `r#`)
-    return "Param %s %s %s %s" % (cstr(apply_ops(rules["ident"], q["ident"])), copt(q["rename"]), "true" if q["opt"] else "false", cty(q["ty"]))
+    # p_opt: the decision of helpers::is_option (as read from the source on this run) on the type's spelling; p_ty is the T of
+    # Option<T> when the macro takes the parameter for optional, else the declared type itself (an Option<T> the macro does not
+    # recognise is read with seq.next::<Option<T>>(): null and values are accepted, an omitted tail is "No more params")
+    mo = macro_optional(q, orule)
+    t = q["ty"] if (mo or not q["opt"]) else ("opt", q["ty"])
+    return "Param %s %s %s %s" % (cstr(apply_ops(rules["ident"], q["ident"])), copt(q["rename"]), "true" if mo else "false", cty(t))
 
 
 def ckeys(q, rules):
@@ -814,6 +1070,7 @@ def run():
     try:
         types, order, apis = load()
         rules = key_rules()
+        orule = option_rule()
         out = ["(* GENERATED by tools/translators/macroapi.py from /verif/harness/src/bin/macroapi.rs (the #[rpc] family) -- do not edit *)",
                "From JV Require Import Base.Bytes Model.MacroApi.", "Local Open Scope N_scope.", ""]
         for n in order:
@@ -828,14 +1085,14 @@ def run():
             ms = []
             for m in a["methods"]:
                 ms.append("Method %s %s %s %s %s %s" % (
-                    cstr(m["name"]), clist(cstr(x) for x in m["aliases"]), clist(cparam(q, rules) for q in m["params"]),
+                    cstr(m["name"]), clist(cstr(x) for x in m["aliases"]), clist(cparam(q, rules, orule) for q in m["params"]),
                     "PMap" if m["pkind"] == "map" else "PArray", {"sync": "MSync", "async": "MAsync", "blocking": "MBlocking"}[m["kind"]],
                     "None" if m["ret"] is None else "(Some %s)" % cty(m["ret"])))
             ss = []
             for s in a["subs"]:
                 ss.append("Subscription %s %s %s %s %s %s %s %s %s" % (
                     cstr(s["name"]), copt(s["notif"]), copt(s["unsub"]), clist(cstr(x) for x in s["aliases"]),
-                    clist(cstr(x) for x in s["unsub_aliases"]), clist(cparam(q, rules) for q in s["params"]),
+                    clist(cstr(x) for x in s["unsub_aliases"]), clist(cparam(q, rules, orule) for q in s["params"]),
                     "PMap" if s["pkind"] == "map" else "PArray", "true" if s["async"] else "false", cty(s["item"])))
             out.append("Definition api_%s : japi :=\n  Api %s %s\n    %s\n    %s." % (
                 a["trait"], copt(a["namespace"]), copt(a["separator"]),
@@ -855,6 +1112,23 @@ def run():
             body = "[ " + ";\n      ".join(items) + " ]" if items else "[]"
             rows.append("    (* %s *)\n    %s" % (a["trait"], body))
         out.append("Definition family_keys : list (list (list (bytes * list bytes))) :=\n  [\n%s\n  ]." % ";\n".join(rows))
+        out.append("")
+        out.append("(* Which parameters the generated server takes for OPTIONAL (positional decoding: seq.optional_next() instead of seq.next()),")
+        out.append("   per API, per method then subscription, per parameter: (path segments of the declared type as spelled in the trait, [] for a")
+        out.append("   tuple; the decision of helpers::is_option on that spelling).  The decision is also the p_opt of the descriptions above.")
+        out.append("   Rule read from /repo/proc-macros/src/helpers.rs on this run (tools/translators/macroapi.py option_rule):")
+        out.append("     optional iff the type is %s *)" % rule_text(orule))
+        rows = []
+        for a in apis:
+            items = []
+            for it in a["methods"] + a["subs"]:
+                cells = ["(%s, %s)" % (clist(cstr(x) for x in (q["path"][1] if q["path"] is not None else ())), "true" if macro_optional(q, orule) else "false")
+                         for q in it["params"]]
+                spelled = ", ".join(path_text(q["path"]) for q in it["params"] if q["opt"])
+                items.append("%s (* %s%s *)" % (clist(cells), it["fn"], ": " + spelled if spelled else ""))
+            body = "[ " + ";\n      ".join(items) + " ]" if items else "[]"
+            rows.append("    (* %s *)\n    %s" % (a["trait"], body))
+        out.append("Definition family_options : list (list (list (list bytes * bool))) :=\n  [\n%s\n  ]." % ";\n".join(rows))
         out.append("")
         vlib.write_if_changed(OUT, "\n".join(out))
         return None
